@@ -419,7 +419,7 @@ def _can_fail(g):
     return False
 
 
-def call_sites(prog, only=None):
+def call_sites(prog, only=None, any_callee=False):
     """(function, call, callee key, result ignored) for every call of a repository function that can fail, and of every
     function-pointer member (keyed `->name`): the result is ignored when the call is a statement of its own or cast to void"""
     from .facts import callee_name as _cn
@@ -450,7 +450,7 @@ def call_sites(prog, only=None):
             nm = None
             if e.get("fn"):
                 gs = prog.resolve_call(f, e)
-                if gs and not gs[0].qn.startswith(("mpt::", "std::")) and _can_fail(gs[0]):
+                if gs and not gs[0].qn.startswith(("mpt::", "std::")) and (any_callee or _can_fail(gs[0])):
                     nm = gs[0].qn
             elif e.get("callee") is not None:
                 ce = strip(e["callee"], all_casts=True)
@@ -543,7 +543,9 @@ def result_boundaries(prog, f):
 
 
 def call_sites_of(prog, f):
-    for x in call_sites(prog, only=f):
+    # for the boundaries every repository callee counts (a reader that passes on what its source returned has no failing
+    # return of its own, yet its callers distinguish `< 0` from `<= 0`)
+    for x in call_sites(prog, only=f, any_callee=True):
         yield x
 
 
